@@ -55,6 +55,9 @@ func hook(point string, obj any, a, b int64) {
 	}
 	var actor string
 	switch {
+	case point == "ai.done", point == "ar.acquire", point == "ar.release":
+		// points of the hand-over trace (ProxyFracTrace.tla), not steps of ActiveIndex.tla
+		return
 	case strings.HasPrefix(point, "ai."):
 		S.mu.Lock()
 		actor = S.bulkOf[a]
